@@ -91,49 +91,51 @@ theorem fifo_service (q : Quirks) : FifoService q :=
 def sourceQuirks : Quirks :=
   ⟨Gen.Blocking.notifyPerElement, Gen.Blocking.wakeAtPush, Gen.Blocking.unregisterAllOnServe,
    Gen.Blocking.refuseBlockingInTx, Gen.Blocking.dedupKeys, Gen.Blocking.drainAll,
-   Gen.Blocking.noticeBlockedHangup, Gen.Blocking.deferBatchWhenBlocked⟩
+   Gen.Blocking.noticeBlockedHangup, Gen.Blocking.deferBatchWhenBlocked, Gen.Blocking.execAtomic⟩
 
 /-- The model drains as many wake-ups per loop iteration as the source says. -/
 theorem wakeBatch_matches_source : Gen.Blocking.wakeBatch = wakeBatch := by decide
 
-/-! ## 3. The `_partial` theorems (all `Allowed` histories, any quirk setting) -/
+/-! ## 3. The `_partial` theorems (all `Allowed` histories; any setting of the other switches, `execAtomic` off —
+  with it on, the queued pushes of a transaction notify nobody until EXEC has finished, which the single-key
+  invariant `Inv` does not describe; the `_fixed_partial` theorems of 3b cover both settings) -/
 
-theorem conservation_partial (q : Quirks) (evs : List Event) (h : Allowed q evs) :
+theorem conservation_partial (q : Quirks) (hx : q.execAtomic = false) (evs : List Event) (h : Allowed q evs) :
     (run q evs).pushed.Perm (delivered (run q evs) ++ (run q evs).store) := by
   have hA := accounting q evs
-  rw [(Inv_run q evs h).lost] at hA
+  rw [(Inv_run q hx evs h).lost] at hA
   simpa using hA
 
-theorem no_stranded_partial (q : Quirks) (evs : List Event) (h : Allowed q evs) (c : Conn) (k : Key)
+theorem no_stranded_partial (q : Quirks) (hx : q.execAtomic = false) (evs : List Event) (h : Allowed q evs) (c : Conn) (k : Key)
     (hq : (run q evs).wakeQ = []) (hb : blockedOn (run q evs) c k) : listOf (run q evs).store k = [] :=
-  (Inv_run q evs h).not_stranded hq hb
+  (Inv_run q hx evs h).not_stranded hq hb
 
-theorem registry_iff_blocked_partial (q : Quirks) (evs : List Event) (h : Allowed q evs) (c : Conn) (k : Key)
+theorem registry_iff_blocked_partial (q : Quirks) (hx : q.execAtomic = false) (evs : List Event) (h : Allowed q evs) (c : Conn) (k : Key)
     (hq : (run q evs).wakeQ = []) : inRegistry (run q evs) k c ↔ blockedOn (run q evs) c k :=
-  (Inv_run q evs h).registry_iff hq c k
+  (Inv_run q hx evs h).registry_iff hq c k
 
-theorem no_leftover_registration_partial (q : Quirks) (evs : List Event) (h : Allowed q evs) (c : Conn)
+theorem no_leftover_registration_partial (q : Quirks) (hx : q.execAtomic = false) (evs : List Event) (h : Allowed q evs) (c : Conn)
     (hb : ((run q evs).conns c).blocked = none) : c ∉ line (run q evs) :=
-  fun hmem => (Inv_run q evs h).blocked_of_mem_line hmem hb
+  fun hmem => (Inv_run q hx evs h).blocked_of_mem_line hmem hb
 
-theorem never_early_nil_partial (q : Quirks) (evs : List Event) (h : Allowed q evs) (now : Nat) (c : Conn) (b : Blocked)
+theorem never_early_nil_partial (q : Quirks) (hx : q.execAtomic = false) (evs : List Event) (h : Allowed q evs) (now : Nat) (c : Conn) (b : Blocked)
     (hb : ((run q evs).conns c).blocked = some b)
     (hn : ((step q (run q evs) (.timeouts now)).conns c).blocked = none) : ∃ d, b.deadline = some d ∧ d ≤ now :=
-  iter_expireOne_blocked now c b _ _ (Inv_run q evs h) hb hn
+  iter_expireOne_blocked now c b _ _ (Inv_run q hx evs h) hb hn
 
 /-- …and it does receive it: after the deadline scan at `now`, a blocked client whose deadline has passed and that has
     no wake-up under way is released (the code's failure of this — a client dropped from the registry by an
     empty wake-up never times out — is the witness `no_stranded_fails_pipelined_push_pop`). -/
-theorem timeout_fires_partial (q : Quirks) (evs : List Event) (h : Allowed q evs) (now : Nat) (c : Conn) (b : Blocked) (d : Nat)
+theorem timeout_fires_partial (q : Quirks) (hx : q.execAtomic = false) (evs : List Event) (h : Allowed q evs) (now : Nat) (c : Conn) (b : Blocked) (d : Nat)
     (hb : ((run q evs).conns c).blocked = some b) (hd : b.deadline = some d) (hle : d ≤ now)
     (hw : ∀ w, w ∈ (run q evs).wakeQ → w.conn ≠ c) :
     ((step q (run q evs) (.timeouts now)).conns c).blocked = none :=
-  (Inv_run q evs h).timeout_fires now c b d hb hd hle hw
+  (Inv_run q hx evs h).timeout_fires now c b d hb hd hle hw
 
 /-- In an allowed history a queued wake-up request always finds its element and its client still blocked:
     the registry/wake-queue/connection-state triple never disagrees (the invariant of DESIGN D3). -/
-theorem invariant_partial (q : Quirks) (evs : List Event) (h : Allowed q evs) : Inv (run q evs) :=
-  Inv_run q evs h
+theorem invariant_partial (q : Quirks) (hx : q.execAtomic = false) (evs : List Event) (h : Allowed q evs) : Inv (run q evs) :=
+  Inv_run q hx evs h
 
 def ka : Key := [97]
 def kb : Key := [98]
@@ -154,6 +156,8 @@ def kb : Key := [98]
     then vacuous, the batch stops at the first blocking pop that blocks);
   * a push of more than `wakeBatch` = 32 elements (finding C13-wake-batch-overflow: the drain after a command
     carries out one batch; dropped from the predicate once `drainAll` is on).
+  The theorems hold for either setting of `execAtomic` (wake-ups after each queued command, as the tree does, or
+  after the whole EXEC — see `ExecAtomic` below), of `noticeBlockedHangup`, `deferBatchWhenBlocked`, `drainAll`.
   Proof: induction over the event list with the multi-key invariant `InvB` (Proofs/BlockingFix*.lean). -/
 
 /-- The switches regenerated from the source on this run have the five repairs on: the theorems below speak
@@ -201,6 +205,45 @@ theorem timeout_fires_fixed_partial (q : Quirks) (hq : Repaired q) (evs : List E
     (hd : b.deadline = some d) (hle : d ≤ now) :
     ((step q (run q evs) (.timeouts now)).conns c).blocked = none :=
   (InvB_run q hq evs h).timeout_fires now c b d hb hd hle
+
+/-! ### A transaction is one indivisible step -/
+
+/-- What the commands queued in a transaction see and answer depends on the lists alone — not on who is blocked:
+    no blocked client is served between two commands of an EXEC (it is served once the EXEC has finished). -/
+def ExecAtomic (q : Quirks) : Prop :=
+  ∀ (now : Nat) (c : Conn) (cmds : List Cmd) (s t : State),
+    s.store = t.store → s.out = t.out → s.conns = t.conns → s.lost = t.lost →
+    (cmds.foldl (dataCmd q now c 0) s).out = (cmds.foldl (dataCmd q now c 0) t).out ∧
+    (cmds.foldl (dataCmd q now c 0) s).store = (cmds.foldl (dataCmd q now c 0) t).store
+
+/-- Holds once the queued commands no longer notify and the pushed keys are served after EXEC (`execAtomic`)… -/
+theorem exec_atomic_holds (q : Quirks) (hx : q.execAtomic = true) : ExecAtomic q := by
+  intro now c cmds s t h1 h2 h3 h4
+  have := Sim_foldl q hx now c cmds (s := s) (t := t) ⟨h1, h2, h3, h4⟩
+  exact ⟨this.out, this.store⟩
+
+/-- …and then the repaired invariant still holds (`invariant_fixed_partial` is proved for both settings), while the
+    waiter is served right after the transaction: -/
+example : outOf (run { Quirks.fixed with deferBatchWhenBlocked := false }
+    [.conn 3 0 [.bpop .left [ka] 0], .conn 2 5 [.multi, .push .right ka [[1], [2]], .pop .left ka, .exec]]) 2
+      = [.ok, .queued, .queued, .arrHdr 2, .int 2, .bulk ka [1]] ∧
+    outOf (run Quirks.fixed
+      [.conn 3 0 [.bpop .left [ka] 0], .conn 2 5 [.multi, .push .right ka [[1], [2]], .pop .left ka, .exec]]) 3
+      = [.pair ka [2]] := by decide
+
+/-- As the tree is (wake-ups after EACH command, also inside EXEC): with a client blocked on `a`, the LPOP of
+    `MULTI; RPUSH a 1; LPOP a; EXEC` answers nil — the blocked client took the element in between. -/
+def sBlockedOnA : State := run { Quirks.fixed with execAtomic := false } [.conn 3 0 [.bpop .left [ka] 0]]
+
+theorem exec_atomic_fails : ¬ ExecAtomic { Quirks.fixed with execAtomic := false } := fun h => by
+  have := (h 5 2 [.push .right ka [[1]], .pop .left ka] sBlockedOnA { sBlockedOnA with registry := [] } rfl rfl rfl rfl).1
+  revert this
+  decide
+
+theorem exec_atomic_fails_reply :
+    outOf (run { Quirks.fixed with execAtomic := false }
+      [.conn 3 0 [.bpop .left [ka] 0], .conn 2 5 [.multi, .push .right ka [[1]], .pop .left ka, .exec]]) 2
+      = [.ok, .queued, .queued, .arrHdr 2, .int 1, .nil] := by decide
 
 /-! ### Non-vacuity of `AllowedFixed` (on the switches read from the source) -/
 
@@ -357,7 +400,7 @@ example : outOf (run { Quirks.code with wakeAtPush := true } wPipelinedPushPop) 
     two-element push, the second wake-up finds the client served and its element is popped for nobody —
     unless a key named twice is waited on once (found by lib/c13.py on the tree with the first four repairs) -/
 def wDuplicateKey : List Event :=
-  [ .conn 3 0 [.bpop .right [ka, ka] 0], .conn 2 0 [.multi, .push .left ka [[1], [2]], .exec], .wakeups ]
+  [ .conn 3 0 [.bpop .right [ka, ka] 0], .conn 2 0 [.push .left ka [[1], [2]]], .wakeups ]
 
 example : (run { Quirks.fixed with dedupKeys := false } wDuplicateKey).lost = [(ka, [2])] := by decide
 example : (run Quirks.fixed wDuplicateKey).lost = [] ∧ (run Quirks.fixed wDuplicateKey).store = [(ka, [2])] := by decide
